@@ -204,6 +204,13 @@ def _own_index(V, loop, row):
     return (d[0] == "idx" and d[2].is_zero()) or (d[0] == "at" and d[2] == 0 and any(d[1].endswith("." + k) for k in H.ID_PROPS if k.startswith("id_")))
 
 
+def _is_call_text(src):
+    try:
+        return isinstance(ast.parse(src, mode="eval").body, ast.Call)
+    except SyntaxError:
+        return False
+
+
 def nested_with_entries(path):
     return [x for x in path.loops if any(q.entries for q in x[2])]
 
@@ -259,7 +266,7 @@ def analyse_unit(ctx, rule_real, rule_cplx, modname, fn, V, loop, paths, antisym
         for r, p in rows.items():
             if not p.is_zero():
                 rname = [au.src(e.row) for e in emits + all_nested if au.norm(e.row) == r][0]
-                foreign = [a for a in p.atoms() if a.startswith("⟨") and "(" in a and not a.startswith("⟨len(")]
+                foreign = [a for a in p.atoms() if a.startswith("⟨") and not a.startswith("⟨len(") and _is_call_text(a[1:-1])]
                 if foreign and not cplx:
                     # the residual is made of calls the rule does not evaluate (a degree obtained from another query ...): equal values may be spelled differently
                     unclear.append(f"the entries of row `{rname}` could not be summed symbolically (they involve `{foreign[0][1:-1][:50]}`)")
@@ -1965,6 +1972,19 @@ def t1_transport(ctx):
         b = sym.Bindings(V)
         stores = [s for s in au.stmts(V.body) if isinstance(s, ast.Assign) and len(s.targets) == 1 and isinstance(s.targets[0], ast.Subscript)
                   and au.is_self_attr(s.targets[0].value, "_transport") and isinstance(s.targets[0].slice, ast.Tuple) and len(s.targets[0].slice.elts) == 2]
+        for x in au.stmts(V.body):
+            # self._transport.update({(a, b): v, (b, a): w})  ==  two stores
+            if isinstance(x, ast.Expr) and isinstance(x.value, ast.Call) and isinstance(x.value.func, ast.Attribute) and x.value.func.attr == "update" \
+                    and au.is_self_attr(x.value.func.value, "_transport") and len(x.value.args) == 1 and isinstance(x.value.args[0], ast.Dict):
+                blk, _ = au.enclosing_block(x)
+                for k, v in zip(x.value.args[0].keys, x.value.args[0].values):
+                    if isinstance(k, ast.Tuple) and len(k.elts) == 2:
+                        ps = ast.Assign(targets=[ast.Subscript(value=x.value.func.value, slice=k, ctx=ast.Store())], value=v)
+                        ast.copy_location(ps, x)
+                        ast.fix_missing_locations(ps)
+                        ps._parent = au.parent(x)
+                        ps._pseudo_of = x
+                        stores.append(ps)
         if not stores:
             ctx.undecided("C08-T1", site, f"{cls}: stores into self._transport[(a, b)] not recognised", "")
             continue
@@ -1973,8 +1993,9 @@ def t1_transport(ctx):
             if id(s) in done:
                 continue
             a, c = (au.src(x) for x in s.targets[0].slice.elts)
-            blk, _ = au.enclosing_block(s)
-            partner = [t for t in stores if t is not s and any(t is x for x in blk)
+            blk, _ = au.enclosing_block(getattr(s, "_pseudo_of", s))
+            blk = blk or []
+            partner = [t for t in stores if t is not s and any(getattr(t, "_pseudo_of", t) is x for x in blk)
                        and [au.src(x) for x in t.targets[0].slice.elts] == [c, a]]
             n += 1
             if not partner or a == c:
@@ -1992,14 +2013,18 @@ def t1_transport(ctx):
             t = partner[0]
             done.update((id(s), id(t)))
             first, second = (s, t) if s.lineno <= t.lineno else (t, s)
-            p1 = sym.to_poly(b.resolve(first.value, at=first))
-            key1 = au.norm(b.resolve(first.targets[0], at=first)).replace("Store()", "Load()")
+            if hasattr(first, "_pseudo_of"):
+                first_at = second_at = first._pseudo_of
+            else:
+                first_at, second_at = first, second
+            p1 = sym.to_poly(b.resolve(first.value, at=first_at))
+            key1 = au.norm(b.resolve(first.targets[0], at=first_at)).replace("Store()", "Load()")
 
             def atom(e, p1=p1, key1=key1):
                 if isinstance(e, ast.Subscript) and au.norm(e) == key1:
                     return p1
                 return None
-            p2 = sym.to_poly(b.resolve(second.value, at=second), atom_of=atom)
+            p2 = sym.to_poly(b.resolve(second.value, at=second_at), atom_of=atom)
             ctx.check((p1 + p2).is_zero(), "C08-T1", ctx.site(CONN, fn, s),
                       f"{cls}: transport (a, b) + transport (b, a) = {p1 + p2}, not zero",
                       "parallel transport between two elements must be antisymmetric: the Hermitian pairing of the connection Laplacians relies on it",
@@ -2030,6 +2055,10 @@ def d1_inverse_branch(ctx):
             problems, und = [], []
             for s in inv:
                 v = b.resolve(s.value, at=s, keep=(arr,))
+                if isinstance(v, ast.IfExp):           # 1/x guarded against tiny x by a constant on the other branch
+                    br = [x for x in (v.body, v.orelse) if not isinstance(au.const(x), (int, float))]
+                    if len(br) == 1:
+                        v = br[0]
                 if not (isinstance(v, ast.BinOp) and isinstance(v.op, ast.Div) and au.const(v.left) in (1, 1.0)):
                     und.append("the inverse store is not of the form 1 / x")
                     continue
@@ -2216,3 +2245,22 @@ def w1_option_dominance(ctx):
 def e1_edge_sides(ctx):
     from .c07 import edge_sides_rule
     edge_sides_rule(ctx, "C08-E1", [(LAP, "cotan_edge_diagonal"), (MASS, "area_weight_matrix_edges"), (CONN, "SurfaceConnectionEdges._initialize")])
+
+
+
+# ----------------------------------------------------------------------- generic families (msa/rules/generic.py)
+_run_specific = run
+
+
+def run(ctx):
+    _run_specific(ctx)
+    from ..rules import generic
+    generic.apply(ctx, "C08", stale_modules=())
+
+
+def _generic_rule_texts():
+    from ..rules import generic
+    return generic.rule_texts("C08", stale=False)
+
+
+RULES.update(_generic_rule_texts())
